@@ -4,6 +4,7 @@ helper lemmas are in Lemmas.lean / ChainLemmas.lean.
 -/
 import BV.C01.Lemmas
 import BV.Generated.C01
+import BV.C09.Model
 namespace BV.C01
 
 /-! ### the decision procedure is the conjunction of the rules -/
@@ -149,6 +150,245 @@ theorem stored_complete_partial (bs : List (Blk β)) (O : Oracle β) (b : Blk β
   | true => have := (hi'.failedOk n hn hf).2; rw [hconn] at this; cases this
 
 end chain
+
+/-! ### each numeric rule holds exactly up to its limit (for every description) -/
+
+theorem weight_limit_exact (d : Desc) (h : d.segwit = true) :
+    ruleOk .weight d = true ↔ d.weight ≤ 4000000 := by
+  simp only [ruleOk, h, MAX_BLOCK_WEIGHT, Bool.not_true, Bool.false_or]
+  exact decide_eq_true_iff
+
+theorem weight_boundary (d : Desc) (h : d.segwit = true) :
+    (d.weight = 4000000 → ruleOk .weight d = true) ∧ (d.weight = 4000001 → ruleOk .weight d = false) := by
+  constructor
+  · intro e; rw [weight_limit_exact d h]; omega
+  · intro e
+    cases hr : ruleOk .weight d with
+    | false => rfl
+    | true => have := (weight_limit_exact d h).mp hr; omega
+
+theorem base_size_limit_exact (d : Desc) : ruleOk .baseSize d = true ↔ d.B.strippedSize ≤ 1000000 := by
+  simp only [ruleOk, MAX_BLOCK_BASE_SIZE]
+  exact decide_eq_true_iff
+
+theorem sigop_limit_exact (d : Desc) : ruleOk .sigopsCost d = true ↔ d.sigopCost ≤ 80000 := by
+  simp only [ruleOk, MAX_BLOCK_SIGOPS_COST]
+  exact decide_eq_true_iff
+
+theorem sigop_boundary (d : Desc) :
+    (d.sigopCost = 80000 → ruleOk .sigopsCost d = true) ∧ (d.sigopCost = 80001 → ruleOk .sigopsCost d = false) := by
+  constructor
+  · intro e; rw [sigop_limit_exact d]; omega
+  · intro e
+    cases hr : ruleOk .sigopsCost d with
+    | false => rfl
+    | true => have := (sigop_limit_exact d).mp hr; omega
+
+theorem coinbase_script_len_exact (d : Desc) :
+    ruleOk .cbScriptLen d = true ↔
+      ∀ t ∈ d.B.txs, t.isCoinbase = true → 2 ≤ t.script0Len ∧ t.script0Len ≤ 100 := by
+  simp only [ruleOk, MIN_COINBASE_SCRIPT_LEN, MAX_COINBASE_SCRIPT_LEN, List.all_eq_true, Bool.or_eq_true,
+    Bool.not_eq_true', Bool.and_eq_true]
+  constructor
+  · intro h t ht hc
+    rcases h t ht with h1 | h1
+    · rw [hc] at h1; cases h1
+    · exact ⟨decide_eq_true_iff.mp h1.1, decide_eq_true_iff.mp h1.2⟩
+  · intro h t ht
+    cases hc : t.isCoinbase with
+    | false => exact Or.inl rfl
+    | true => exact Or.inr ⟨decide_eq_true_iff.mpr (h t ht hc).1, decide_eq_true_iff.mpr (h t ht hc).2⟩
+
+theorem timestamp_bounds_exact (d : Desc) :
+    (ruleOk .timeOld d = true ↔ d.C.prevMTP < d.H.time) ∧
+    (ruleOk .timeNew d = true ↔ d.H.time ≤ d.C.now + 7200) := by
+  simp only [ruleOk, MAX_FUTURE_BLOCK_TIME]
+  exact ⟨decide_eq_true_iff, decide_eq_true_iff⟩
+
+
+theorem maturity_exact (d : Desc) :
+    ruleOk .immature d = true ↔
+      ∀ t ∈ d.B.txs, t.isCoinbase = false → ∀ i ∈ t.ins, i.avail = true → i.isCb = true →
+        d.P.maturity ≤ d.C.height - i.originHeight := by
+  simp only [ruleOk, List.all_eq_true, List.mem_filter, Bool.or_eq_true, Bool.not_eq_true',
+    Bool.and_eq_false_iff, and_imp]
+  constructor
+  · intro h t ht hc i hi ha hcb
+    rcases h t ht (by simp [hc]) i hi with (h1 | h1) | h1
+    · rw [ha] at h1; cases h1
+    · rw [hcb] at h1; cases h1
+    · exact decide_eq_true_iff.mp h1
+  · intro h t ht hc i hi
+    have hc' : t.isCoinbase = false := by simpa using hc
+    cases ha : i.avail with
+    | false => exact Or.inl (Or.inl rfl)
+    | true =>
+      cases hcb : i.isCb with
+      | false => exact Or.inl (Or.inr rfl)
+      | true => exact Or.inr (decide_eq_true_iff.mpr (h t ht hc' i hi ha hcb))
+
+theorem coinbase_value_exact (d : Desc) (cb : TxFacts) (rest : List TxFacts) (h : d.B.txs = cb :: rest) :
+    ruleOk .coinbaseValue d = true ↔
+      cb.outSum ≤ subsidy d.C.height d.P.subsidyInterval + sumInt (d.B.txs.map (·.fee)) := by
+  simp only [ruleOk, h]
+  exact decide_eq_true_iff
+
+theorem max_money_exact (d : Desc) :
+    ruleOk .outValue d = true ↔
+      ∀ t ∈ d.B.txs, (∀ v ∈ t.outs, 0 ≤ v ∧ v ≤ 2100000000000000) ∧
+        0 ≤ t.outSum ∧ t.outSum ≤ 2100000000000000 := by
+  simp only [ruleOk, moneyRange, MAX_MONEY, List.all_eq_true, Bool.and_eq_true]
+  constructor
+  · intro h t ht
+    obtain ⟨h1, h2, h3⟩ := h t ht
+    exact ⟨fun v hv => ⟨decide_eq_true_iff.mp (h1 v hv).1, decide_eq_true_iff.mp (h1 v hv).2⟩,
+      decide_eq_true_iff.mp h2, decide_eq_true_iff.mp h3⟩
+  · intro h t ht
+    obtain ⟨h1, h2, h3⟩ := h t ht
+    exact ⟨fun v hv => ⟨decide_eq_true_iff.mpr (h1 v hv).1, decide_eq_true_iff.mpr (h1 v hv).2⟩,
+      decide_eq_true_iff.mpr h2, decide_eq_true_iff.mpr h3⟩
+
+theorem timewarp_exact (d : Desc) (h94 : d.P.bip94 = true)
+    (hfirst : Int.tmod d.C.height d.P.blocksPerRetarget = 0) :
+    ruleOk .timewarp d = true ↔ d.C.prevTime - 600 ≤ d.H.time := by
+  simp only [ruleOk, h94, hfirst, MAX_TIMEWARP, Bool.not_true, Bool.false_or, ne_eq, not_true_eq_false,
+    decide_false]
+  exact decide_eq_true_iff
+
+theorem version_gate_exact (d : Desc) :
+    ruleOk .version d = true ↔
+      ¬ ((d.H.version < 2 ∧ d.P.bip34H ≤ d.C.height) ∨ (d.H.version < 3 ∧ d.P.bip66H ≤ d.C.height) ∨
+         (d.H.version < 4 ∧ d.P.bip65H ≤ d.C.height)) := by
+  simp only [ruleOk, Bool.not_eq_true', Bool.or_eq_false_iff, Bool.and_eq_false_iff, decide_eq_false_iff_not,
+    not_or, not_and]
+  constructor
+  · rintro ⟨⟨h1, h2⟩, h3⟩
+    refine ⟨fun a b => ?_, fun a b => ?_, fun a b => ?_⟩
+    · rcases h1 with h | h <;> omega
+    · rcases h2 with h | h <;> omega
+    · rcases h3 with h | h <;> omega
+  · rintro ⟨h1, h2, h3⟩
+    refine ⟨⟨?_, ?_⟩, ?_⟩
+    · by_cases a : d.H.version < 2
+      · exact Or.inr (h1 a)
+      · exact Or.inl a
+    · by_cases a : d.H.version < 3
+      · exact Or.inr (h2 a)
+      · exact Or.inl a
+    · by_cases a : d.H.version < 4
+      · exact Or.inr (h3 a)
+      · exact Or.inl a
+
+/-- BIP68 height lock on one input: spendable iff its age reaches the masked sequence value -/
+theorem seqlock_height_exact (i : InFacts) (height mtp : Int)
+    (hen : i.seq / SEQ_LOCKTIME_DISABLE % 2 = 0) (hty : i.seq / SEQ_LOCKTIME_TYPE % 2 = 0) :
+    i.seqLockOk height mtp = true ↔ ((i.seq % 65536 : Nat) : Int) ≤ height - i.originHeight := by
+  unfold InFacts.seqLockOk
+  simp only [hen, hty, SEQ_LOCKTIME_MASK]
+  constructor
+  · intro h
+    have := decide_eq_true_iff.mp h
+    omega
+  · intro h
+    apply decide_eq_true_iff.mpr
+    omega
+
+/-- BIP68 time lock on one input, in 512-second units against the two median times -/
+theorem seqlock_time_exact (i : InFacts) (height mtp : Int)
+    (hen : i.seq / SEQ_LOCKTIME_DISABLE % 2 = 0) (hty : i.seq / SEQ_LOCKTIME_TYPE % 2 = 1) :
+    i.seqLockOk height mtp = true ↔ ((i.seq % 65536 : Nat) : Int) * 512 ≤ mtp - i.originPrevMTP := by
+  unfold InFacts.seqLockOk
+  simp only [hen, hty, SEQ_LOCKTIME_MASK, SEQ_LOCKTIME_GRANULARITY]
+  constructor
+  · intro h
+    have := decide_eq_true_iff.mp h
+    omega
+  · intro h
+    apply decide_eq_true_iff.mpr
+    omega
+
+/-- the proof-of-work rules are C09's `checkProofOfWork` on the same numbers -/
+theorem pow_rules_are_c09 (d : Desc) (hash : List UInt8)
+    (ht : d.H.target = BV.C09.compactToBig d.H.bits) (hh : d.H.hashNum = BV.C09.hashToBig hash) :
+    (ruleOk .powTarget d = true ∧ ruleOk .powHash d = true) ↔
+      BV.C09.checkProofOfWork d.H.bits hash d.P.powLimit = .ok := by
+  simp only [ruleOk, Bool.and_eq_true, ht, hh]
+  unfold BV.C09.checkProofOfWork
+  simp only []
+  constructor
+  · rintro ⟨⟨h1, h2⟩, h3⟩
+    have h1 := decide_eq_true_iff.mp h1
+    have h2 := decide_eq_true_iff.mp h2
+    have h3 := decide_eq_true_iff.mp h3
+    rw [if_neg (by omega), if_neg (by omega), if_neg (by omega)]
+  · intro h
+    split at h
+    · cases h
+    · split at h
+      · cases h
+      · split at h
+        · cases h
+        · exact ⟨⟨decide_eq_true_iff.mpr (by omega), decide_eq_true_iff.mpr (by omega)⟩,
+            decide_eq_true_iff.mpr (by omega)⟩
+
+/-- the subsidy is C09's `calcBlockSubsidy` -/
+theorem subsidy_is_c09 (height interval : Int) :
+    subsidy height interval = (BV.C09.calcBlockSubsidy height interval : Int) := by
+  unfold subsidy BV.C09.calcBlockSubsidy
+  by_cases h0 : interval = 0
+  · rw [if_pos h0, if_pos h0]; rfl
+  · rw [if_neg h0, if_neg h0]
+    dsimp only
+    by_cases h1 : Int.tdiv height interval < 0
+    · rw [if_pos h1, if_pos h1]; rfl
+    · rw [if_neg h1, if_neg h1]
+      by_cases h2 : Int.tdiv height interval ≥ 64
+      · have h3 : (Int.tdiv height interval).toNat ≥ 64 := by omega
+        rw [if_pos h2, if_pos h3]; rfl
+      · have h3 : ¬ (Int.tdiv height interval).toNat ≥ 64 := by omega
+        rw [if_neg h2, if_neg h3, Nat.shiftRight_eq_div_pow]
+        unfold BASE_SUBSIDY BV.C09.Spec.BASE_SUBSIDY
+        rw [Int.natCast_ediv]
+        rfl
+
+
+/-! ### non-vacuity -/
+
+def exCoinbase : TxFacts :=
+  { version := 1, lockTime := 0, ins := [⟨true, 0xffffffff, false, false, 0, 0, 0, 0, 0, false, 0⟩],
+    outs := [5000000000], strippedSize := 100, dupInputs := false, script0Len := 5, legacySigops := 0,
+    hasWitness := false, overwrites := false }
+
+def exDesc : Desc :=
+  { P := ⟨1, 1, 1, 1, 1, 1, false, 100, 150, 2 ^ 255 - 1, 2016, false⟩
+    C := ⟨9, 1000, 1100, 0x207fffff, 5000⟩
+    H := ⟨0x20000000, 0x207fffff, 1700, 0x7fffff * 2 ^ 232, 5⟩
+    B := ⟨200, 236, [exCoinbase], true, false, 0, 9⟩ }
+
+/-- a concrete description that satisfies every rule, and one satoshi more in the coinbase breaks exactly one -/
+example : Valid exDesc := (Lemmas.firstViolation_none exDesc).mp (by decide)
+example : firstViolation { exDesc with B := { exDesc.B with txs := [{ exCoinbase with outs := [5000000001] }] } }
+    = some .coinbaseValue := by decide
+example : violated { exDesc with B := { exDesc.B with txs := [{ exCoinbase with outs := [5000000001] }] } }
+    = [.coinbaseValue] := by decide
+
+section
+open Chain Lemmas
+/-- a derivation that ignores the context is context free: the hypothesis of the chain theorems is satisfiable -/
+example : ContextFree (fun (_ : List (Blk Unit)) (_ : Blk Unit) => exDesc) := fun _ _ => rfl
+
+def exO : Oracle Unit := ⟨fun _ => true, fun _ _ => true, fun _ b => b.hash != 5⟩
+def exB (h p : Nat) : Blk Unit := ⟨h, p, 1, ()⟩
+/-- G(0) ← 1 ← 2 on the main chain; 4 arrives before its parent 3 (orphan), 3 ← 4 ← 6 overtakes by reorganisation;
+    5 (child of 2... delivered on the old branch) fails the connect check and never becomes active. -/
+example : ((run exO (exB 0 99) [exB 1 0, exB 2 1, exB 4 3, exB 3 0, exB 6 4, exB 5 6]).best.map (·.hash)) = [6, 4, 3, 0] := by
+  decide
+example : ((run exO (exB 0 99) [exB 1 0, exB 2 1, exB 4 3, exB 3 0, exB 6 4, exB 5 6]).nodes.map
+    (fun n => (n.blk.hash, n.valid, n.failed))) =
+    [(0, true, false), (1, true, false), (2, true, false), (3, true, false), (4, true, false), (6, true, false),
+     (5, false, true)] := by
+  decide
+end
 
 /-! ### pinned constants (regenerated from the tree on every run) -/
 
